@@ -54,6 +54,49 @@ CHECKS = {
         note=TRUST + 'State inside libyaml structs is not visible.'),
 }
 
+CHECKS.update({
+    'C03': dict(
+        level='other', technique='raise-set resolution, guard-idiom dominance, per-character abstract interpretation of scanner loops',
+        design='DESIGN.md 4/C03',
+        text='Decides the exception-class, guard and loop-termination clauses: every explicit raise of reader/scanner/parser/'
+             'composer (and the error mapping of the C binding) is a YAMLError subclass; every partial operation on input-derived '
+             'data is dominated by an enumerated guard idiom or rests on a listed structural belief; for each character loop of '
+             'the scanner and each class of current character one iteration leaves the loop or consumes input (leaves at the '
+             'NUL sentinel); the sentinel is always appended and every chunk validated. Termination of the recursive-descent '
+             'parser/composer, crashes inside libyaml and truth of error positions are NOT decided.',
+        note=TRUST + 'Listed beliefs: parser state/mark stack balance (A-STACK), reader window (A-WINDOW, checked under C07).'),
+    'C13': dict(
+        level='other', technique='CFG dominance / post-dominance of guards and orderings on composer, constructor and their Cython siblings',
+        design='DESIGN.md 4/C13',
+        text='Decides the orderings and guards from which alias identity follows: undefined alias / duplicate anchor rejected with '
+             'ComposerError before use; collection registered under its anchor before children are composed; anchors reset per '
+             'document; construct_object consults the cache first, guards recursion, caches on every normal path, releases the '
+             'recursion mark only after caching and resumes generators early only in deep mode; container constructors are '
+             'two-phase and lazy; pending generators are drained before a document is returned. The identity relation of the '
+             'result itself is a run-time relation and is NOT decided.',
+        note=TRUST),
+    'C18': dict(
+        level='other', technique='shape rules on the generator API, read-size constancy, CFG reachability of token look-ahead',
+        design='DESIGN.md 4/C18',
+        text='Decides the structural conditions without which no read-ahead bound exists: iterating API functions are generators '
+             'yielding one item per check/get step in try/finally dispose with no draining construct; the reader requests a '
+             'constant block only inside its demand loops (C handler passes libyaml\'s size through); tokens are fetched only for '
+             'an empty queue or a pending simple key that expires by line and by a character-distance constant; one parser step '
+             'per request and no token look-ahead after a document end marker. The numeric bound (two refill blocks) is a '
+             'run-time count and is NOT decided.',
+        note=TRUST),
+    'C19': dict(
+        level='proof', technique='handler inventory over a name-based may-call graph + stream attribute whitelist + effect analysis',
+        design='DESIGN.md 4/C19',
+        text='Proof over the finite handler inventory that no except clause of the package (Python and .pyx) can intercept an '
+             'exception originating in caller-supplied code without re-raising it unchanged (two enumerated, reasoned exceptions), '
+             'that the API entry points only have try/finally dispose and dispose cannot fail, that only read/name and '
+             'write/flush/encoding of a caller stream are touched (append-only output), that every cdef function that can raise '
+             'declares `except` and no libyaml failure is dropped, and that no class/module-level state is written during a call '
+             '(library left usable). This covers every interruption point because an exception can only be altered by a handler.',
+        note=TRUST + 'The prefix property inside libyaml\'s own output buffer (C code) is not visible.'),
+})
+
 NOT_APPLICABLE = {
     'C12': 'Whether ---/... are written where needed depends on run-time values (open_ended, explicit/version/tags of the '
            'event, the last scalar\'s text and style, and one case inside libyaml); there is no invariant of the code\'s shape '
